@@ -18,7 +18,7 @@ func init() { register("C20", "exploration", runC20) }
 const c20forkObs = uint64(1<<31 - 2)
 
 func runC20(c *ev.Ctx) {
-	c.Rule = "plain DAGs (1..10 validators, all weight regimes, forks by any subset) indexed by a real vecfc.Index; every event is handed to QuorumIndexer.ProcessEvent with a seeded self/non-self flag (independent of the creator, also flipping for one creator); after EVERY event: GetGlobalMedianSeqs vs 'largest s such that the creators whose latest processed event observes the validator at >= s hold a quorum' computed from the reference's graph closure (a seen fork counts as 2^31-2), " +
+	c.Rule = "plain DAGs (1..10 validators, all weight regimes, forks by any subset) indexed by a real vecfc.Index; every event is handed to QuorumIndexer.ProcessEvent with a seeded self/non-self flag (independent of the creator, also flipping for one creator); a fifth of the events is delivered twice, a third is followed by the next event without any query in between; after every other event: GetGlobalMedianSeqs vs 'largest s such that the creators whose latest processed event observes the validator at >= s hold a quorum' computed from the reference's graph closure (a seen fork counts as 2^31-2), " +
 		"GetSelfParentSeqs vs the observation of the last event processed with the self flag, and GetMetricOf(candidate) for two known events (and, on a third of the events, for one more candidate asked right after ProcessEvent, before any other query) vs the sum over validators of an argument-order-sensitive diff function of (median, own, candidate's observation, validator index). " +
 		"non-trivial = distinct DAGs where some median was decided by a fork observation or where two creators' latest events disagreed about a validator by more than one"
 	c.Assumptions = []string{"observations come from the reference closure (C06 ties the index to it)", "the diff function is pure"}
@@ -83,6 +83,20 @@ func runC20(c *ev.Ctx) {
 			latest[e.Creator()] = ei
 			if self {
 				selfEv = ei
+			}
+			if r.Intn(5) == 0 {
+				// the same event is delivered once more (same flag): nothing may change, least of all what is pending
+				if p, _ := ev.Try(func() { qi.ProcessEvent(e, self) }); p != nil {
+					m := desc()
+					m["panic"] = fmt.Sprint(p)
+					c.Violation("process-event-panics", m)
+					return
+				}
+				c.Count("events_delivered_twice", 1)
+			}
+			if r.Intn(3) == 0 && k+1 < len(order) {
+				c.Count("events_processed_without_a_query_before_the_next", 1)
+				continue // several events in a row without any query in between
 			}
 			// ---- on some events the metric is asked FIRST, before anything else reads the indexer
 			earlyCand, earlyGot := -1, ancestor.Metric(0)
